@@ -390,9 +390,16 @@ def run_case(idx, rng, P, rep):
                 snap[('val', k, p)] = id(getattr(o, p)) if p != 'xy' else tuple(id(v_) for v_ in getattr(o, p))
             ws = o.param.watchers
             snap[('watchers', k)] = tuple(sorted((p, what, tuple(id(w) for w in lst)) for p, d in ws.items() for what, lst in d.items()))
+            # what the Selectors offer (read without giving the object Parameter objects of its own)
+            existing = o.param.objects('existing')
+            for p in ('sel', 'csel', 'rsel'):
+                if p in existing:
+                    snap[('objects', k, p)] = tuple(repr(x_) for x_ in existing[p].objects)
         for p in ('x', 'y', 's', 'sel', 'c', 'r', 'plain', 'csel', 'rsel', 'nanp', 'ev', 'go', 'cgo', 'cnt', 'flag'):
             snap[('clsval', p)] = id(getattr(Tgt, p))
             snap[('clsflags', p)] = (Tgt.param[p].constant, Tgt.param[p].readonly)
+        for p in ('sel', 'csel', 'rsel'):
+            snap[('clsobjects', p)] = tuple(repr(x_) for x_ in Tgt.param[p].objects)
         return snap
 
     before = snapshot()
@@ -439,7 +446,8 @@ def run_case(idx, rng, P, rep):
         if before[k] != after[k]:
             if k[0] == 'val' and k[1] == 't' and k[2] in applied_before_bad:
                 continue
-            what = {'val': 'value', 'watchers': 'watcher table', 'clsval': 'class value', 'clsflags': 'class flags'}[k[0]]
+            what = {'val': 'value', 'watchers': 'watcher table', 'clsval': 'class value', 'clsflags': 'class flags', 'objects': 'selector objects',
+                    'clsobjects': 'class selector objects'}[k[0]]
             viol(f'{what.replace(" ", "-")}-changed', f'{what} {k[1:]} changed by the rejected assignment')
     new_log = log[n_log:]
     for label, evs in new_log:
